@@ -147,6 +147,11 @@ def compare_ref(t: RT, df, *, view: str, tol=None):
     got_names, got_rows = frame_rows(df)
     if got_names != names:
         raise Mismatch("names", f"expected {names} got {got_names}")
+    # no source column of the generated tables is a Decimal: a Decimal column in the result is a float that went
+    # through a NUMERIC result type (python Decimal, ten digits)
+    dec_cols = [n for n, d in df.schema.items() if d.is_decimal()]
+    if dec_cols:
+        raise Mismatch("dtype", f"columns {dec_cols} are exported as Decimal {[str(df.schema[n]) for n in dec_cols]}")
     if len(got_rows) != len(rows):
         raise Mismatch("height", f"expected {len(rows)} rows got {len(got_rows)}")
     if view == "polars":
